@@ -496,6 +496,9 @@ def run(res, tier):
     borrow_scope_rule(res, fx)
     primitive_rule(res, fx)
     fail_clean_rule(res, fx)
+    # "delivered in any segmentation": a read may return fewer bytes than asked for, none included (the rule lives with the short-transfer discipline in C03)
+    from .C03 import count_consulted_rule
+    count_consulted_rule(res, fx)
     entries = []
     missing = []
     for q in PARSE_ENTRIES:
